@@ -24,6 +24,10 @@ pub enum ShapeSpec {
     Dag { dag: DagSpec, out: u16 },
     /// bundled model: 0 = hi, 1 = quarter, 2 = tanglecube, 3 = bear, 4 = colonnade, 5 = prospero
     Model(u8),
+    /// a shape that hands the bit pattern of a bound free variable v to the
+    /// output: form 0: v, 1: -v, 2: abs(v), 3: x + v, 4: min(x, v); `bits` is
+    /// the value bound to v (any bit pattern, NaN payloads included)
+    Var { form: u8, bits: u32 },
 }
 
 pub const MODELS: [&str; 6] = [
@@ -50,6 +54,7 @@ impl ShapeSpec {
                 let n = pool[sel_index(*out, pool.len())];
                 (b.ctx, n)
             }
+            ShapeSpec::Var { .. } => unreachable!("rendered by run_var"),
             ShapeSpec::Model(i) => {
                 let path = format!("/repo/models/{}", MODELS[*i as usize % MODELS.len()]);
                 let text = std::fs::read(&path).expect("model file");
@@ -513,14 +518,106 @@ where
     Ok(())
 }
 
+/// Shapes with a bound free variable: whatever bit pattern the caller binds, a
+/// pixel carries the shape's value there (NaN matching NaN) and is reported
+/// inside exactly when that value is negative
+fn run_var<F: MathFunction + RenderHints>(case: &Case, form: u8, bits: u32, cx: &mut Cx) -> CheckResult {
+    use fidget_core::shape::ShapeVars;
+    use fidget_core::var::Var;
+    let value = f32::from_bits(bits);
+    let mut ctx = Context::new();
+    let var = Var::new();
+    let v = ctx.var(var);
+    let x = ctx.x();
+    let root = match form % 5 {
+        0 => v,
+        1 => ctx.neg(v).unwrap(),
+        2 => ctx.abs(v).unwrap(),
+        3 => ctx.add(x, v).unwrap(),
+        _ => ctx.min(x, v).unwrap(),
+    };
+    let shape = Shape::<F>::new(&ctx, root).unwrap();
+    let mut vars: ShapeVars<f32> = ShapeVars::new();
+    vars.insert(var.index().unwrap(), value);
+    let bound = shape.bind(&vars).map_err(|e| Fail::new("harness", format!("{e:?}")))?;
+    let (w, h) = (case.width.min(12), case.height.min(12));
+    let size = ImageSize::new(w, h);
+    let cfg = RenderConfig {
+        image_size: size,
+        world_to_model: Matrix3::identity(),
+        pixel_perfect: case.pixel_perfect,
+        z: 0.0,
+    };
+    let pool = make_pool(case.threads);
+    let eval_cfg = EvalConfig {
+        tile_sizes: None,
+        threads: pool.as_ref(),
+        cancel: Default::default(),
+    };
+    let image = fidget_raster::pixel::render::<F>(bound, &cfg, &eval_cfg)
+        .ok_or_else(|| Fail::new("render-returned-none", "render returned None without cancellation"))?;
+    let s2w = screen_to_world_2d(w, h);
+    let data = image.as_slice();
+    cx.ev.count("variable_shapes_rendered");
+    if value.is_nan() {
+        cx.ev.count("variable_bound_to_a_nan");
+    }
+    for j in 0..h as usize {
+        for i in 0..w as usize {
+            let qx = s2w[(0, 0)] * i as f32 + s2w[(0, 1)] * j as f32 + s2w[(0, 2)];
+            let want = match form % 5 {
+                0 => value,
+                1 => -value,
+                2 => value.abs(),
+                3 => qx + value,
+                _ => crate::refsem::bin(BinOp::Min, qx, value),
+            };
+            let px = data[j * w as usize + i];
+            match px.unpack() {
+                DistancePixel::Value(pv) => ensure!(
+                    (same(pv, want) || (pv == 0.0 && want == 0.0)) && px.inside() == (want < 0.0),
+                    "variable-pixel-wrong",
+                    "shape form {} with v = {} ({bits:#010x}): pixel ({i},{j}) carries {} (inside: {}) but the value is {}",
+                    form % 5,
+                    fl_to_string(value),
+                    fl_to_string(pv),
+                    px.inside(),
+                    fl_to_string(want)
+                ),
+                DistancePixel::Fill { inside, .. } => ensure!(
+                    !case.pixel_perfect && inside == (want < 0.0) && px.inside() == inside,
+                    "variable-pixel-wrong",
+                    "shape form {} with v = {} ({bits:#010x}): pixel ({i},{j}) is a fill (inside: {inside}) but the value is {}",
+                    form % 5,
+                    fl_to_string(value),
+                    fl_to_string(want)
+                ),
+            }
+        }
+    }
+    Ok(())
+}
+
 impl Prop for P {
     const ID: &'static str = "C06";
     type Case = Case;
 
     fn strategy(tier: Tier) -> BoxedStrategy<Case> {
         let dim = tier.pick(96u32, 150u32);
+        // a bound variable whose bit pattern reaches the pixels: every NaN
+        // class (quiet / signalling, either sign, any 8-bit field of the
+        // mantissa set, lowest bit set or not), special values, arbitrary bits
+        let var_bits = prop_oneof![
+            4 => (any::<bool>(), any::<bool>(), 0u32..23, any::<u8>(), any::<bool>()).prop_map(|(neg, quiet, shift, field, low)| {
+                let mant = ((field as u32) << shift.min(14)) | low as u32 | if quiet { 1 << 22 } else { 0 };
+                let mant = if mant & 0x7f_ffff == 0 { 1 } else { mant & 0x7f_ffff };
+                0x7f80_0000 | mant | if neg { 1 << 31 } else { 0 }
+            }),
+            2 => gens::fl_any().prop_map(|f| f.0.to_bits()),
+        ];
+        let var_shape = (0u8..5, var_bits).prop_map(|(form, bits)| ShapeSpec::Var { form, bits });
         (
-            shape_spec(tier, 4),
+            prop_oneof![12 => shape_spec(tier, 4), 1 => var_shape],
             1u32..=dim,
             1u32..=dim,
             mat3_strategy(),
@@ -546,7 +643,47 @@ impl Prop for P {
             .boxed()
     }
 
+    /// Every NaN class as the value of a bound variable that reaches the pixels
+    /// untouched: each 8-bit field of the mantissa at each position, quiet and
+    /// signalling, lowest bit set or clear (the pixel format keeps fills in NaN
+    /// payloads, so a NaN computed by the shape must never read back as a fill)
+    fn fixed_cases(_tier: Tier) -> Vec<Case> {
+        let mut out = vec![];
+        for shift in 0..=14u32 {
+            for field in 0..=255u32 {
+                for low in 0..2u32 {
+                    for quiet in 0..2u32 {
+                        let mant = ((field << shift) | low | (quiet << 22)) & 0x7f_ffff;
+                        if mant == 0 {
+                            continue;
+                        }
+                        let k = out.len();
+                        out.push(Case {
+                            shape: ShapeSpec::Var { form: (k % 3) as u8, bits: 0x7f80_0000 | mant | ((k as u32 / 3 % 2) << 31) },
+                            width: 2,
+                            height: 1,
+                            mat: None,
+                            z: Fl(0.0),
+                            pixel_perfect: k % 2 == 0,
+                            tiles: None,
+                            jit: k % 5 == 0,
+                            threads: 0,
+                        });
+                    }
+                }
+            }
+        }
+        out
+    }
+
     fn check(case: &Case, cx: &mut Cx) -> CheckResult {
+        if let ShapeSpec::Var { form, bits } = case.shape {
+            return if case.jit {
+                run_var::<JitFunction>(case, form, bits, cx)
+            } else {
+                run_var::<VmFunction>(case, form, bits, cx)
+            };
+        }
         if case.jit {
             cx.ev.count("backend_jit");
             run::<JitFunction>(case, cx)
